@@ -174,7 +174,7 @@ pub fn run(args: &Args) -> i32 {
     if rep.too_many_fails() {
         return rep.finish();
     }
-    let n = args.scale(160_000, 3_200_000);
+    let n = args.scale(640_000, 8_000_000);
     for i in 0..n {
         if !args.mine(i) {
             continue;
